@@ -193,9 +193,15 @@ def check(case):
         expected.append((sel, scan, abs(o) + abs(oi)))
         if U and idx is not None and (kind == 'conn_in' or api_name != an):
             nontriv = True
+    import openmdao.api as om
     phases = {}
     for ph in (0, 1, 2):
-        phases[ph] = run_phase(spec, ref, ops, names, ph)
+        try:
+            phases[ph] = run_phase(spec, ref, ops, names, ph)
+        except om.AnalysisError:
+            res.discard = 'nonconverged'
+            res.classes = cls + ['nonconverged']
+            return res
     for i, op in enumerate(ops):
         api_name, kind, an = names[op['name'] % len(names)]
         sel, scan, offmag = expected[i]
